@@ -1,6 +1,6 @@
 (* C02 — Generated C code compiles and computes the same values as the model defines. *)
 From Coq Require Import Reals QArith Qcanon.
-From GX Require Import Base Expr Cback Carriers RealsC.
+From GX Require Import Base Expr Cback Carriers RealsC CMod.
 Close Scope Q_scope. Close Scope R_scope. Close Scope Qc_scope.
 Open Scope string_scope.
 Open Scope list_scope.
@@ -50,3 +50,10 @@ Proof. vm_compute. repeat split. Qed.
 Example C02_safe_example :
   c_safe (EMul (EDiv (ENum (1 # 1) false) (i_ 4)) (EAdd (EVar "x") (EPow (EVar "x") (i_ 2)))) = true.
 Proof. reflexivity. Qed.
+
+(* the C text printed for Mod(a, b) since the repair of the sign defect - fmod(fmod(a, b) + b, b), with C's fmod = a - b*trunc(a/b) -
+   is the language's Mod (floored modulo, sign of the divisor) over the reals for every divisor other than 0; a single fmod is not *)
+Theorem C02_the_printed_form_of_Mod_is_the_models_Mod :
+  forall a b : R, b <> 0%R -> r_cfmod (r_cfmod a b + b) b = fmod ROps a b.
+Proof. exact printed_mod_is_the_models_mod. Qed.
+Print Assumptions C02_the_printed_form_of_Mod_is_the_models_Mod.
